@@ -502,7 +502,11 @@ Lemma tasks_wiring :
   (* CIFAR-100: default TFF crop = the model's sample input *)
   TK.task_cifar_uses_tff_defaults = true /\
   Gen_md_cifar100.cifar_model_sample_shape =
-    [1; Gen_ds_cifar100_defaults.cifar_default_crop_height; Gen_ds_cifar100_defaults.cifar_default_crop_width; 3].
+    [1; Gen_ds_cifar100_defaults.cifar_default_crop_height; Gen_ds_cifar100_defaults.cifar_default_crop_width; 3] /\
+  (* EMNIST: dataset and model agree on digits-only (10 classes) vs all 62 classes *)
+  TK.task_emnist_conv_data_only_digits = TK.task_emnist_conv_model_only_digits /\
+  TK.task_emnist_logistic_data_only_digits = TK.task_emnist_logistic_model_only_digits /\
+  TK.task_emnist_dense_data_only_digits = TK.task_emnist_dense_model_only_digits.
 Proof. vm_compute. repeat split; discriminate. Qed.
 
 (* ---------- per-example training loss: a row's loss does not depend on the other rows ---------- *)
